@@ -383,6 +383,38 @@ func checkParagraphInvariant(b []byte, r *Recorder) error {
 			}
 		}
 	}
+	// paragraphs put together keep the shape: Update(q) lists p's fields, then q's new ones, each
+	// once, with q's values where both have one - and leaves p and q as they were
+	for i := 0; i+1 < len(paras) && i < 3; i++ {
+		p, q := paras[i], paras[i+1]
+		pOrder, qOrder := strings.Join(p.Order, "\x00"), strings.Join(q.Order, "\x00")
+		u := p.Update(q)
+		seen := map[string]bool{}
+		for _, k := range u.Order {
+			if seen[k] {
+				return errf("input %q: Update of paragraph %d with %d lists %q twice (Order=%q)", b, i, i+1, k, u.Order)
+			}
+			seen[k] = true
+			want, ok := q.Values[k]
+			if !ok {
+				want, ok = p.Values[k]
+			}
+			if got, has := u.Values[k]; !ok || !has || got != want {
+				return errf("input %q: Update of paragraph %d with %d: field %q = %q (present %v), want %q", b, i, i+1, k, got, has, want)
+			}
+		}
+		if len(u.Values) != len(u.Order) || len(u.Order) < len(p.Order) || len(u.Order) < len(q.Order) || len(u.Order) > len(p.Order)+len(q.Order) {
+			return errf("input %q: Update of paragraph %d (%d fields) with %d (%d fields) has %d names and %d values", b, i, len(p.Order), i+1, len(q.Order), len(u.Order), len(u.Values))
+		}
+		for j, k := range p.Order {
+			if u.Order[j] != k {
+				return errf("input %q: Update of paragraph %d with %d: Order %q does not start with the receiver's %q", b, i, i+1, u.Order, p.Order)
+			}
+		}
+		if strings.Join(p.Order, "\x00") != pOrder || strings.Join(q.Order, "\x00") != qOrder {
+			return errf("input %q: Update changed one of its operands", b)
+		}
+	}
 	// All() must agree with the Next() loop when it succeeds
 	pr2, err := control.NewParagraphReader(bytes.NewReader(b), nil)
 	if err == nil {
